@@ -4,8 +4,14 @@ package models
 
 import (
 	"fmt"
+	"io"
 	"net/mail"
 	"strings"
+
+	"github.com/Masterminds/semver/v3"
+	"gopkg.in/yaml.v3"
+
+	zz "github.com/goreleaser/nfpm/v2/internal/zzverif"
 )
 
 // Model of net/mail.ParseAddress (RFC 5322 parser, not executable): accepts
@@ -22,4 +28,50 @@ func MailParseAddress(s string) (*mail.Address, error) {
 		return &mail.Address{Address: s}, nil
 	}
 	return nil, fmt.Errorf("mail: no angle-addr")
+}
+
+// ---------------------------------------------------------------- yaml.v3 (reflection-driven decoder)
+//
+// Contract stub: the decoder remembers whether KnownFields(true) was requested;
+// Decode hands the target to a harness-supplied filler (zz.Store("yaml.fill", func(any) error))
+// and publishes the strictness flag as zz.Load("yaml.known"). That yaml.v3 rejects
+// unknown keys when the flag is set is the library's behaviour and is outside the claim.
+
+var yamlKnown = map[*yaml.Decoder]bool{}
+
+//verif:replace gopkg.in/yaml.v3.NewDecoder
+func YamlNewDecoder(r io.Reader) *yaml.Decoder {
+	d := new(yaml.Decoder)
+	yamlKnown[d] = false
+	return d
+}
+
+//verif:replace (*gopkg.in/yaml.v3.Decoder).KnownFields
+func YamlKnownFields(d *yaml.Decoder, enable bool) { yamlKnown[d] = enable }
+
+//verif:replace (*gopkg.in/yaml.v3.Decoder).Decode
+func YamlDecode(d *yaml.Decoder, v any) error {
+	zz.Store("yaml.known", yamlKnown[d])
+	if f, ok := zz.Load("yaml.fill").(func(any) error); ok {
+		return f(v)
+	}
+	zz.Unsupported("yaml decoding without a prepared result")
+	return nil
+}
+
+// ---------------------------------------------------------------- Masterminds/semver (regexp-driven parser)
+//
+// Contract stub: NewVersion returns what the harness prepared with
+// zz.Store("semver.next", *semver.Version | error). Which strings parse is outside the claim.
+
+//verif:replace github.com/Masterminds/semver/v3.NewVersion
+func SemverNewVersion(s string) (*semver.Version, error) {
+	switch r := zz.Load("semver.next").(type) {
+	case *semver.Version:
+		return r, nil
+	case error:
+		return nil, r
+	}
+	zz.Unsupported("semver.NewVersion without a prepared result")
+	return nil, nil
 }
